@@ -110,16 +110,19 @@ ObsOk(o) ==
                   /\ o.lists = OnlySet(o.current)                                \* S2 ListsConsistent
                   /\ o.current = cur                                             \* S4 API = events
     /\ ~o.alive => (o.open = <<>> /\ o.lists = {})                               \* S3
-    /\ (since.n > 0 /\ since.succ = {} /\ ~since.failed /\ ~since.kicked)        \* H0 NoSideEffects
+    \* expectations about where the player ends up only make sense for a player that was
+    \* connected to the proxy (and, for H2/H3, on a server) at the previous quiescent point
+    /\ (prev.alive /\ since.n > 0 /\ since.succ = {} /\ ~since.failed /\ ~since.kicked)   \* H0 NoSideEffects
           => (o.alive /\ o.current = prev.current /\ o.openids = prev.openids)
-    /\ (since.succ # {} /\ ~since.failed /\ ~since.kicked)                       \* H1 SuccessLands
+    /\ (prev.alive /\ since.succ # {} /\ ~since.failed /\ ~since.kicked)                  \* H1 SuccessLands
           => (o.alive /\ o.current \in since.succ)
-    /\ (since.n = 1 /\ since.failed /\ ~since.kicked /\ since.succ = {})         \* H2 FailureSafe
+    /\ (prev.alive /\ prev.current # "none"                                               \* H2 FailureSafe
+           /\ since.n = 1 /\ since.failed /\ ~since.kicked /\ since.succ = {})
           => /\ o.alive
              /\ \/ (o.current = prev.current /\ (since.keep => o.openids = prev.openids))
                 \/ (~since.keep /\ o.current \in Fallbacks)
                 \/ (since.limbo /\ o.current = "none")
-    /\ (since.n = 0 /\ since.kicked)                                             \* H3 KickFallsBack
+    /\ (prev.alive /\ prev.current # "none" /\ since.n = 0 /\ since.kicked)               \* H3 KickFallsBack
           => IF Fallbacks \ {prev.current} = {} THEN ~o.alive
              ELSE o.alive /\ o.current \in Fallbacks \ {prev.current}
 
